@@ -317,8 +317,42 @@ def replay(behaviour, report=None):
     return _job(behaviour)
 
 
+def count_expressions(report):
+    """
+    A DistinctCount rule is the name of a declared field followed by the rest of a comparison, 'any comparison operator or
+    mathematical expression available to the Python language' (docs): such CIDs load, and the check enforces the number the
+    expression denotes. Names that are no mathematics (exit, len, id, ...) are C10's business.
+    """
+    import io
+    import cutplace
+    from cutplace import errors
+    for rest, limit in (("< pow(2, 2)", 4), ("< abs(-4)", 4), ("< max(1, 4)", 4), ("< min(4, 9)", 4), ("< round(4.2)", 4), ("< 2 ** 2", 4),
+                        ("< 8 // 2", 4), ("< int(4.9)", 4), ("< sum((1, 3))", 4), ("< (1 + 3)", 4), ("< 4 and count > 0", 4)):
+        rule = "branch " + rest
+        report.replayed += 1
+        cid = cutplace.Cid()
+        try:
+            cid.read("cid", [["D", "Format", "delimited"], ["F", "branch"], ["C", "few branches", "DistinctCount", rule]])
+        except errors.InterfaceError as error:
+            report.violation("c09", {"count_expression": rule}, "accepted", str(error),
+                             "CID with the DistinctCount rule %r (a field name and a mathematical expression) is rejected: %s" % (rule, error))
+            continue
+        verdicts = []
+        for count in (limit - 1, limit):
+            try:
+                cutplace.validate(cid, io.StringIO("".join("b%d\r\n" % n for n in range(count))))
+                verdicts.append(True)
+            except errors.CheckError:
+                verdicts.append(False)
+        if verdicts != [True, False]:
+            report.violation("c09", {"count_expression": rule}, [True, False], verdicts,
+                             "DistinctCount rule %r: %d and %d distinct values are judged %s but must be judged [True, False]" % (
+                                 rule, limit - 1, limit, verdicts))
+
+
 def run(tier, report):
     core.import_repo()
+    count_expressions(report)
     result = core.tlc("MCCidLoad", "CidLoad_quick.cfg" if tier == "quick" else "CidLoad_deep.cfg", timeout=7000)
     core.require_coverage(result, ["ReadRow", "Finish"], "CidLoad")
     report.add_tlc("CidLoad: base CIDs x one defect of the catalogue at every applicable row x row-level rewrites", result)
